@@ -44,11 +44,19 @@ fn roundtrip_wellformed(rep: &mut Report, bytes: &[u8], source: &str) {
     rep.count(if two { "wellformed.pool_with_long_double" } else { "wellformed.pool_without_long_double" });
     let tag = if two { " (pool has a long/double entry)" } else { "" };
     let pos = std::cell::Cell::new(0usize);
-    let r = guard(|| { let mut c = Cursor::new(bytes); let r = ClassFile::read(&mut c).map_err(|e| e.to_string()); pos.set(c.position() as usize); r });
+    // every third input is delivered through a reader that returns short reads (legal for any `Read`); the outcome must not depend on it
+    let chunked = common::rng::fnv(bytes) % 3 == 0;
+    rep.count(if chunked { "reader.short_reads" } else { "reader.cursor" });
+    let r = guard(|| {
+        if chunked { let mut c = common::io::ChunkedReader::new(bytes, common::rng::fnv(bytes), 1 + (bytes.len() % 9)); let r = ClassFile::read(&mut c).map_err(|e| e.to_string()); pos.set(c.position()); r }
+        else { let mut c = Cursor::new(bytes); let r = ClassFile::read(&mut c).map_err(|e| e.to_string()); pos.set(c.position() as usize); r }
+    });
     let v = match r {
         // a two-slot pool entry derails the reader at an arbitrary later point: one root cause, one signature
         Err(_) | Ok(Err(_)) if two => { rep.violation("C20 read fails on a well-formed class whose constant pool has a long/double entry", json!({"input_hex": hex(bytes), "source": source, "outcome": format!("{r:?}")})); return; }
         Err(p) => { rep.violation(format!("C20 read panics: {}", p.site()), json!({"input_hex": hex(bytes), "source": source, "panic": p.message})); return; }
+        Ok(Err(e)) if chunked && guard(|| ClassFile::read(&mut Cursor::new(bytes)).is_ok()).unwrap_or(false) => {
+            rep.violation(format!("C20 read depends on how the reader delivers the bytes: fails under short reads ({}), succeeds from a slice", template(&e)), json!({"input_hex": hex(bytes), "source": source, "error": e})); return; }
         Ok(Err(e)) => { if std::env::var("C20_DEBUG").is_ok() { if let Ok(m) = parse::parse(bytes) { let f = features::features(&m); println!("DBG {}", f.iter().filter(|x| !x.starts_with("insn.") && !x.starts_with("version") && !x.starts_with("local.") && !x.starts_with("ev.") && !x.starts_with("const.")&& !x.starts_with("handle.")).cloned().collect::<Vec<_>>().join(" ")); } }
             rep.violation(format!("C20 read rejects well-formed class: {} (reader stopped {})", template(&e), locate(&spans, pos.get().saturating_sub(1))), json!({"input_hex": hex(bytes), "source": source, "error": e, "reader_position": pos.get()})); return; }
         Ok(Ok(v)) => v,
@@ -152,6 +160,7 @@ fn main() {
         meta.oblige("classes with long/double pool entries were tried", rep.get("wellformed.pool_with_long_double") > 100);
         meta.oblige("at least 25 attribute kinds seen in inputs", rep.seen_n("attribute_kinds") >= 25);
         meta.oblige("raw values obtained", rep.get("raw.values") > 100);
+        meta.oblige("inputs delivered through a short-read reader as well as through a slice", rep.get("reader.short_reads") > 100 && rep.get("reader.cursor") > 100);
         meta.oblige("attribute payloads larger than 65536 bytes were read (at every level: class, field, method, Code, SourceDebugExtension)", rep.get("large.over_65536") >= 30 && ["large.class.unknown", "large.class.source_debug_extension", "large.field.unknown", "large.method.unknown", "large.code.unknown"].iter().all(|k| rep.get(k) > 0));
     }
     std::process::exit(finish(&ctx, rep, meta));
